@@ -32,7 +32,9 @@ Seen == hi > 0
 Real == 1..nn
 \* the application hears of exactly the publications the incoming vector adds, once, with the right ranges; nobody else hears anything
 T_C19svs_upd == [][On => \A n \in 1..(IF Ev.ev = "Reset" THEN Ev.n ELSE nn) :
-                        Expand(Ev.upd[n]) = (IF Ev.ev = "dlv" /\ n = Ev.dst THEN News(n, Vec(Ev.v)) ELSE {})]_tvars
+                        /\ Expand(Ev.upd[n]) = (IF Ev.ev = "dlv" /\ n = Ev.dst THEN News(n, Vec(Ev.v)) ELSE {})
+                        /\ \A i \in 1..Len(Ev.upd[n]) : Ev.upd[n][i].lo <= Ev.upd[n][i].hi              \* no empty notification
+                        /\ \A i, j \in 1..Len(Ev.upd[n]) : i # j => Ev.upd[n][i].m # Ev.upd[n][j].m]_tvars     \* one per node
 I_C19svs_vec == Seen => \A n \in Real : Vec(Last.sv[n]) = sv[n]
 \* a Sync Interest carries the sender's whole current vector
 I_C19svs_send == Seen => \A s \in Sent(Last) : s.v = sv[s.src]
@@ -41,7 +43,7 @@ I_C19svs_pub == (Seen /\ Last.ev = "pub") => \E s \in Sent(Last) : s.src = Last.
 \* left alone for longer than the periodic timeout (30 s +- 10%) every node repeats its vector
 I_C19svs_periodic == (Seen /\ Last.ev = "adv" /\ Last.dt >= 34000) => \A n \in Real : \E s \in Sent(Last) : s.src = n
 I_C19svs_probe == (Seen /\ Last.ev = "adv" /\ "probe" \in DOMAIN Last) =>
-                     IF Last.probe = "outdated-quiet" THEN \E s \in Sent(Last) : s.src = Last.who
+                     IF Last.probe \in {"outdated-quiet", "outdated-partly-covered"} THEN \E s \in Sent(Last) : s.src = Last.who
                      ELSE ~\E s \in Sent(Last) : s.src = Last.who
 \* after lossless rounds everybody knows everything
 I_C19svs_settle == (Seen /\ Last.ev = "settle") => \A n, m \in Real : sv[n][m] = sv[m][m]
